@@ -52,7 +52,11 @@ def run(tier: str) -> int:
     except ImportError:
         pass
     for name, v, b, idx in parts:
-        ic.report(out, v, b, idx, only_clauses={"vocabulary"})
+        if name == "transport":
+            import trcommon as tc
+            tc.report(out, v, b, only={"vocabulary"})
+        else:
+            ic.report(out, v, b, idx, only_clauses={"vocabulary"})
     total = sum(len(p[1]) for p in parts)
     ok_ids = sorted(i for i, v in vs.items() if v["clause"] == "ok")
     cov = {
